@@ -3,6 +3,7 @@ from checks.common import Ctx
 from sa.report import Check
 from sa.rules import cpp_rules as C
 from sa.rules import write_rules as W
+from sa.rules import window_rules as WN
 
 
 def main(tier):
@@ -16,10 +17,12 @@ def main(tier):
             "expression written by TryToWrite equals the one written by UncheckedWrite modulo casts (R-TWIN); the "
             "inverse synthesised for `let x = y + c`, `y - c`, `c - y` is the algebraic inverse, decided by evaluating "
             "the constructed Function(op, args) as a linear form over {value, other} (R-INVERSE); the virtual write "
-            "template tests CouldWriteValue before forwarding and forwards the transformed value (R-VWRITE). "
+            "template tests CouldWriteValue before forwarding and forwards the transformed value (R-VWRITE); a virtual field is made a plain alias only on paths where it was found to carry no [requires] of its own (R-ALIASGUARD, guard dominance); every OffsetBitBlock method that touches the underlying block applies the window's offset_ (R-WINDOW). "
             "Not decided: exact accept/reject boundaries, neighbour-bit preservation."))
     chk.run("R-SIBLING", C.sibling, cx.cpp, floor=80, control=lambda: cx.cpp_control)
     chk.run("R-TWIN", C.twin, cx.cpp, floor=40)
     chk.run("R-INVERSE", W.inverse, cx.repo, floor=3, control=lambda: W.control(cx.repo))
     chk.run("R-VWRITE", W.vwrite, cx.repo, cx.templates, floor=3)
+    chk.run("R-ALIASGUARD", W.aliasguard, cx.repo, floor=1)
+    chk.run("R-WINDOW", WN.window, cx.cpp, floor=5)
     return chk.finish()
